@@ -33,6 +33,8 @@ SOLVERS = {
                        fields=dict(COMMON, max_pn_iter='int', p0='int', ws_strategy='str'), items='n_features'),
     'GroupBCD': dict(file='skglm/solvers/group_bcd.py', qual='GroupBCD._solve',
                      fields=dict(COMMON, max_epochs='int', p0='int', ws_strategy='str'), items='n_groups'),
+    'GramCD': dict(file='skglm/solvers/gram_cd.py', qual='GramCD._solve',
+                   fields=dict(COMMON, use_acc='bool', greedy_cd='bool'), items='n_features', no_xw=True),
     'GroupProxNewton': dict(file='skglm/solvers/group_prox_newton.py', qual='GroupProxNewton._solve',
                             fields=dict(COMMON, max_pn_iter='int', p0='int'), items='n_groups',
                             calls={'_descent_direction': C.descent_direction(2, 3, 8, n_out=2)}),
@@ -118,6 +120,43 @@ class ZoutInv:
         return all(self._holds(e) for e in ends)
 
 
+class ScoreInv:
+    """candidate invariant: the array bound to `name` holds the scores of the CURRENT coefficient / model-fit versions
+    (solvers that compute the next iteration's stopping value at the end of the previous one)"""
+
+    def __init__(self, name):
+        self.name, self.alive = name, True
+
+    def _event(self, st):
+        v = st.env.get(self.name)
+        if not isinstance(v, SArr):
+            return None
+        for e in reversed(st.events):
+            if e['kind'] == 'score' and e['out'] == v.loc:
+                ok = e['grad_ok'] and st.heap[v.loc].eq(e.get('outv', st.heap[v.loc])) and e['wv'].eq(st.heap[e['wloc']]) \
+                    and e['xv'].eq(st.heap[e['xloc']])
+                return e if ok else None
+        return None
+
+    def establish(self, ip, st):
+        e = self._event(st)
+        if e is None:
+            self.alive = False
+        else:
+            self.tmpl = e
+
+    def assume(self, ip, g, it):
+        e = self.tmpl
+        o = SArr(g.newloc('opt', e['wlen']))
+        g.env[self.name] = o
+        ov, wv, xv, wsv = g.ver(o), g.heap[e['wloc']], g.heap[e['xloc']], g.heap[e['ws']]
+        g.qfacts.append(lambda k, ov=ov, wv=wv, xv=xv, wsv=wsv, e=e: selr(ov, k) == C.SCORE(wv, e['lo'], xv, seli(wsv, k), e['strat'], e['aux']))
+        g.events.append(dict(e, out=o.loc, wv=wv, xv=xv, wsv=wsv, line=None))
+
+    def preserved(self, ip, ends, it):
+        return all(self._event(e) is not None for e in ends)
+
+
 def loop_invariants(ip, st, node):
     import ast
     cands = []
@@ -137,9 +176,18 @@ def loop_invariants(ip, st, node):
             if la != lb and ((fa[0] == 'zero' and fb[0] == 'zero') or (fa[0] == 'entry' and fb[0] == 'entry' and fa[2] == lb
                                                                         and st.ghost.get('entry') == (la, lb))):
                 C.get_pair(st, la, lb)
+    # Gram-form gradients (grad = G w - c) pair with the coefficient array they were computed from
+    for nm, v in st.env.items():
+        if isinstance(v, SArr) and v.kind == 'r' and C.gram_tag(st, v.loc) is not None:
+            for la, fa in live:
+                if la != v.loc:
+                    C.get_pair(st, la, v.loc)
     for key in list(C.pairs(st)):
         cands.append(PairInv(key))
     names, arrs = ip.writes(node.body)
+    for nm, v in st.env.items():
+        if isinstance(v, SArr) and nm in names and any(e['kind'] == 'score' and e['out'] == v.loc for e in st.events):
+            cands.append(ScoreInv(nm))
     idxs = [v.loc for nm, v in st.env.items() if isinstance(v, SArr) and v.kind == 'i' and nm not in names and nm not in arrs]
     for nm, v in st.env.items():
         if isinstance(v, SArr) and v.kind == 'r' and nm in arrs:
@@ -193,7 +241,8 @@ def entry_state(spec, tree, warm):
     st.env['self'] = C.self_obj(spec['fields'])
     for nm in ('X', 'y', 'Y', 'datafit', 'penalty', 'np', 'sparse', 'warnings', 'scipy', 'norm'):
         st.env[nm] = SObj(nm)
-    st.env['ConvergenceWarning'] = SObj('ConvergenceWarning')
+    for nm in ('ConvergenceWarning', 'UserWarning', 'ValueError', 'AttributeError'):
+        st.env[nm] = SObj(nm)
     ns, nf = z3.Int('n_samples'), z3.Int('n_features')
     st.pc += [ns >= 1, nf >= 1, z3.Int('n_groups') >= 1]
     for f, srt in spec['fields'].items():
@@ -202,6 +251,9 @@ def entry_state(spec, tree, warm):
     st.ghost['fit_intercept'] = z3.Bool('self_fit_intercept')
     if warm:
         w = SArr(st.newloc('w_init'))
+        if spec.get('no_xw'):
+            # a solver without its own length check: the documented shape precondition of w_init
+            st.pc.append(S.alen(st.heap[w.loc]) == nf)
         xw = SArr(st.newloc('Xw_init', ns))
         C.flags(st)[w.loc] = ('entry', st.ver(w), xw.loc)
         C.flags(st)[xw.loc] = ('entry', st.ver(xw), w.loc)
@@ -274,6 +326,7 @@ def path_tag(st):
 
 def solver_task(T, name, warm, props, shard=(0, 1)):
     T.solver_name = name
+    T.no_intercept = bool(SOLVERS[name].get('no_xw'))      # Gram solver: no intercept is fitted at all (stated in the evidence)
     ip, spec = run_solver(name, warm)
     cfg = 'warm' if warm else 'cold'
     nitems = z3.Int(spec['items'])
@@ -349,7 +402,8 @@ def c01_return(T, cfg, k, st, w, stop, nitems, tol, fi, props):
         _check(T, f'{cfg}/cert-fresh@p{k}', hy, goal, terms=[j])
         _check(T, f'{cfg}/cert-covers-all-items@p{k}', hy, z3.And(ev['lo'] == 0, alen(ev['wsv']) == nitems))
         gi = z3.Implies(fi, z3.Or(C.zabs(C.ISTEP(xv_now)) <= Sx, C.zabs(C.SUMRAW(xv_now)) <= Sx))
-        _check(T, f'{cfg}/cert-intercept@p{k}', hy, gi)
+        if not T.no_intercept:
+            _check(T, f'{cfg}/cert-intercept@p{k}', hy, gi)
         _check(T, f'{cfg}/cert-on-returned-array@p{k}', hy, z3.BoolVal(ev['wloc'] == w.loc))
         pr = C.get_pair(st, w.loc, ev['xloc'])
         _check(T, f'{cfg}/inv:Xw==Xw+b@p{k}', hy, z3.And(pr['ok'], pr['rho'] == 0))
